@@ -35,6 +35,9 @@ type vecIn struct {
 	Kind string `json:"kind"` // c2s | s2s | ws | comp
 	Role string `json:"role"` // init | recv
 	Via  string `json:"via"`  // custom | pkg | gen
+	// how the start tokens of the payload's namespaced child elements carry their namespace: plain (no such child) |
+	// space (Name.Space) | attr (xmlns attribute) | both (as an xml.Decoder delivers them)
+	Kids string `json:"kids"`
 }
 
 type vecExp struct {
@@ -47,6 +50,7 @@ type vecExp struct {
 	Nested  string   `json:"nested"`
 	Payload string   `json:"payload"`
 	Next    string   `json:"next"`
+	Kids    string   `json:"kids"`
 	NS      string   `json:"ns"`      // the stream's content namespace, by the specification: client | server | accept
 	Context string   `json:"context"` // header (a stream header declares the content namespace) | standalone (every element is a document of its own)
 }
@@ -103,6 +107,7 @@ const (
 	theID   = "given-id"
 	theFrom = "sender@from.example/r"
 	nsOther = "urn:vt:foreign"
+	nsKid   = "urn:vt:kid"
 )
 
 const (
@@ -325,6 +330,21 @@ func runVector(v vector) (obs vt.Ev, bad string) {
 	start := mk(v.In.Name)
 	inner := func() xml.TokenReader {
 		body := xmlstream.Wrap(xmlstream.Token(xml.CharData("payload <&> text")), xml.StartElement{Name: xml.Name{Local: "body"}})
+		if v.In.Kids != "" && v.In.Kids != "plain" {
+			// a namespaced child with a child of its own (depth 2 and 3 of the element)
+			kidStart := func(local string) xml.StartElement {
+				st := xml.StartElement{Name: xml.Name{Local: local}}
+				if v.In.Kids == "space" || v.In.Kids == "both" {
+					st.Name.Space = nsKid
+				}
+				if v.In.Kids == "attr" || v.In.Kids == "both" {
+					st.Attr = []xml.Attr{{Name: xml.Name{Local: "xmlns"}, Value: nsKid}}
+				}
+				return st
+			}
+			kid := xmlstream.Wrap(xmlstream.Wrap(xmlstream.Token(xml.CharData("deep")), kidStart("grandkid")), kidStart("kid"))
+			body = xmlstream.MultiReader(body, kid)
+		}
 		if !v.In.Nested {
 			return body
 		}
@@ -406,6 +426,7 @@ func runVector(v vector) (obs vt.Ev, bad string) {
 		start    xml.StartElement
 		text     string
 		children []xml.StartElement
+		grand    []xml.StartElement
 		complete bool
 	}
 	var tops []*top
@@ -421,11 +442,21 @@ func runVector(v vector) (obs vt.Ev, bad string) {
 		switch t := tok.(type) {
 		case xml.StartElement:
 			depth++
+			// (encoding/xml does not mind a repeated attribute; XML does: such a start tag is not well-formed)
+			seen := map[xml.Name]int{}
+			for _, a := range t.Attr {
+				seen[a.Name]++
+				if seen[a.Name] > 1 && depth > 1 {
+					return obs, fmt.Sprintf("wire not well-formed: the start tag <%s> (depth %d of the element) carries the attribute %q %d times", t.Name.Local, depth-1, a.Name.Local, seen[a.Name])
+				}
+			}
 			if depth == 2 {
 				cur = &top{start: t.Copy()}
 				tops = append(tops, cur)
 			} else if depth == 3 && cur != nil {
 				cur.children = append(cur.children, t.Copy())
+			} else if depth == 4 && cur != nil {
+				cur.grand = append(cur.grand, t.Copy())
 			}
 		case xml.EndElement:
 			if depth == 2 && cur != nil {
@@ -520,14 +551,23 @@ func runVector(v vector) (obs vt.Ev, bad string) {
 	if v.In.Nested {
 		wantKids = 2
 	}
+	if v.Exp.Kids == "same" {
+		wantKids++
+	}
 	if len(t.children) != wantKids || t.children[0].Name.Local != "body" {
 		return obs, fmt.Sprintf("children altered: %v", t.children)
+	}
+	if v.Exp.Kids == "same" {
+		k := t.children[1]
+		if k.Name != (xml.Name{Space: nsKid, Local: "kid"}) || len(t.grand) != 1 || t.grand[0].Name != (xml.Name{Space: nsKid, Local: "grandkid"}) {
+			return obs, fmt.Sprintf("the namespaced child elements (start tokens carrying the namespace as %q) do not arrive as {%s kid} / {%s grandkid}: %v %v", v.In.Kids, nsKid, nsKid, k.Name, t.grand)
+		}
 	}
 	if !strings.Contains(wire, "payload &lt;&amp;&gt; text") {
 		return obs, "payload text altered"
 	}
 	if v.In.Nested {
-		c := t.children[1]
+		c := t.children[len(t.children)-1]
 		if _, ok := attr(c, "id"); ok || c.Name.Local != "message" {
 			return obs, fmt.Sprintf("nested stanza-named child was altered: %v", c)
 		}
